@@ -93,30 +93,43 @@ def utf8 (c : Nat) : List Nat :=
 `/EmbeddedFiles` name tree). -/
 def fKey (cps : List Nat) : List Nat := cps.flatMap utf8
 
-/-- `pdf_attachment['F'].data` — `pydyf.String(<bytes>).data`: always the literal form, the bytes
-between parentheses with `\`, `(` and `)` escaped.  This **written form** is the sort key of repair
-186e86a. -/
+/-- `pydyf.String(<bytes>).data`, the written form of the `/F` key: the bytes between parentheses with
+`\\`, `(` and `)` escaped.  It was the sort key of repair 186e86a (finding
+`embedded-files-written-form-order`); since e909019 the keys are compared as bytes.  Kept for the
+regression example. -/
 def fData (cps : List Nat) : List Nat := 40 :: (Wp.PdfStr.escapeLit (fKey cps) ++ [41])
 
 def insertSpec (cpsOf : String → List Nat) (x : FileSpec) : List FileSpec → List FileSpec
   | [] => [x]
   | y :: ys =>
-    if Wp.Outline.nameLt (fData (cpsOf y.filename)) (fData (cpsOf x.filename)) then y :: insertSpec cpsOf x ys
+    if Wp.Outline.nameLt (fKey (cpsOf y.filename)) (fKey (cpsOf x.filename)) then y :: insertSpec cpsOf x ys
     else x :: y :: ys
 
-/-- `sorted(pdf_attachments, key=lambda attachment: attachment['F'].data)` (stable). -/
+/-- `sorted(pdf_attachments, key=lambda attachment: attachment['F'].string)` (stable): `F` is
+`pydyf.String(filename.encode(errors='ignore'))`, its `.string` the bytes of the file name. -/
 def sortSpecs (cpsOf : String → List Nat) : List FileSpec → List FileSpec
   | [] => []
   | x :: xs => insertSpec cpsOf x (sortSpecs cpsOf xs)
 
 /-- "Embedded files" of `generate_pdf`: `metadata.attachments` then `options['attachments']`; the name
-array lists them sorted by the written form of their `/F` key.  `cpsOf` gives the code points of a
+array lists them sorted by the bytes of their `/F` key (e909019).  `cpsOf` gives the code points of a
 file name. -/
 def embeddedFiles (cpsOf : String → List Nat) (guesses : List (String × String)) (next : Nat) (atts : List Att) :
     List FileSpec × Option EmbeddedFiles × Nat :=
   let r := writeAll guesses next atts
   if r.1.isEmpty then (r.1, none, r.2)
   else (r.1, some ⟨r.2, (sortSpecs cpsOf r.1).map (fun f => (f.filename, f.spec))⟩, r.2 + 1)
+
+/-- The "Embedded files" block when the same `Document` (or a `Document.copy` of it, which shares
+`metadata`) is written **again**: `Attachment.source` is the generator context manager made once by
+`_select_source(...)` in `Attachment.__init__`; its first `__enter__` deleted `self.args`, so
+`with attachment.source` raises `AttributeError` on the first attachment of `metadata.attachments`
+— readable or not — and `except URLFetchingError` does not catch it.  Attachments passed in the
+`attachments` option are new objects for each call and are not concerned. -/
+def writeAllAgain (metaAtts : List Att) : Except PyErr Unit :=
+  match metaAtts with
+  | [] => .ok ()
+  | _ :: _ => .error (.noneAttribute "_GeneratorContextManager.args")
 
 /-- `<link rel=attachment href=… title=…>` as `get_html_metadata` sees it: `href` is the resolved URL
 (`get_url_attribute`), `none` when the attribute is missing. -/
